@@ -150,6 +150,16 @@ RemoveUrr(i, u) ==
      /\ Commit(e, <<[Dgram("p1", 53, turns + 1, ss[i].cp) EXCEPT !.cause = 1, !.rpts = <<RepT(u, TRIG_TERMR, tok + 1)>>]>>, <<>>, <<>>, <<>>, s2)
      /\ UNCHANGED <<free, assoc, txseq, base>>
 
+\* a further periodic URR for a session that may already have some (Create URR in a Modification Request)
+AddUrr(i, u, P) ==
+  LET e == [Ev("mod") EXCEPT !.peer = "p1", !.seq = turns + 1, !.seid = SeidStr(i),
+                             !.ops = <<[Op("create", "urr", u) EXCEPT !.meth = 2, !.perio = TRUE, !.period = P]>>]
+      s2 == [ss EXCEPT ![i].urrs = @ \cup {[id |-> u, perio |-> TRUE, period |-> P]}]
+  IN /\ "addurr" \in Kinds /\ i \in Live /\ ~\E x \in ss[i].urrs : x.id = u
+     /\ ss' = s2
+     /\ Commit(e, <<[Dgram("p1", 53, turns + 1, ss[i].cp) EXCEPT !.cause = 1]>>, <<>>, <<>>, <<>>, s2)
+     /\ UNCHANGED <<free, assoc, txseq, tok, base>>
+
 \* one REPORT multicast carrying a report for URR u of session sd with reporting-trigger cause c
 KernelReport(sd, u, c) ==
   LET kr == [sref |-> 0, seid |-> SeidStr(sd), urr |-> u, trig |-> c, tok |-> tok + 1, vals |-> ValsOfTok(tok + 1)]
